@@ -398,10 +398,14 @@ Inductive aop :=
 | ODrop (n : nat)              (* n_a   : b[n:]   — a view *)
 | OTake (n : nat)              (* n#a   : b[:n]   — a view (n <= #a) *)
 | ORev                         (* |a    : a[::-1] — a view *)
-| OAmend (i : nat) (v : Z).    (* a:=v,i : np.array(a) clone, then put *)
+| OAmend (i : nat) (v : Z)     (* a:=v,i : np.array(a) clone, then put *)
+| OOther (f : list Z -> list Z). (* any other verb (reshape, rotate, split, grade, ...): a function of the operand's value *)
 
-(* `clone` : eval_dyad_amend copies before writing (Generated.amend_clones_first) *)
-Definition apply_aop (clone : bool) (o : aop) (h : heap) (a : arr) : heap * arr :=
+(* `clone` : eval_dyad_amend copies before writing (Generated.amend_clones_first)
+   `pure`  : no verb implementation stores into its parameters (Generated.no_verb_stores_into_operands); a verb that
+             does (like a reshape that substitutes the -1 of its shape operand in place) is modelled as writing
+             its intermediate into the operand's buffer *)
+Definition apply_aop (clone pure : bool) (o : aop) (h : heap) (a : arr) : heap * arr :=
   match o with
   | ODrop n => let k := Nat.min n (a_len a) in
                (h, mk_arr (a_loc a) (a_off a + Z.of_nat k * a_step a) (a_step a) (a_len a - k))
@@ -415,6 +419,11 @@ Definition apply_aop (clone : bool) (o : aop) (h : heap) (a : arr) : heap * arr 
         (* writing through the view *)
         let pos := Z.to_nat (a_off a + Z.of_nat i * a_step a) in
         (if (i <? a_len a)%nat then hset h (a_loc a) (list_set (hget h (a_loc a)) pos v) else h, a)
+  | OOther f =>
+      if pure then
+        let (h1, l) := alloc h (f (deref h a)) in (h1, mk_arr l 0 1 (length (f (deref h a))))
+      else
+        (hset h (a_loc a) (f (hget h (a_loc a))), a)
   end.
 
 (* a statement: target variable := op applied to a source variable, or a fresh literal *)
@@ -437,12 +446,12 @@ Fixpoint eset (k : name) (v : arr) (s : list (name * arr)) : list (name * arr) :
   | (k', v') :: r => if k =? k' then (k', v) :: r else (k', v') :: eset k v r
   end.
 
-Definition exec (clone : bool) (st : hstate) (s : stmt) : hstate :=
+Definition exec (clone pure : bool) (st : hstate) (s : stmt) : hstate :=
   match s with
   | SLit d l => let (h1, lc) := alloc (hp st) l in mk_hstate h1 (eset d (mk_arr lc 0 1 (length l)) (env st))
   | SOp d o src =>
       match elookup src (env st) with
-      | Some a => let (h1, a1) := apply_aop clone o (hp st) a in mk_hstate h1 (eset d a1 (env st))
+      | Some a => let (h1, a1) := apply_aop clone pure o (hp st) a in mk_hstate h1 (eset d a1 (env st))
       | None => st
       end
   | SCopy d src =>
@@ -452,7 +461,7 @@ Definition exec (clone : bool) (st : hstate) (s : stmt) : hstate :=
       end
   end.
 
-Definition exec_all (clone : bool) (st : hstate) (p : list stmt) : hstate := fold_left (exec clone) p st.
+Definition exec_all (clone pure : bool) (st : hstate) (p : list stmt) : hstate := fold_left (exec clone pure) p st.
 
 Definition value_of (st : hstate) (k : name) : option (list Z) :=
   match elookup k (env st) with Some a => Some (deref (hp st) a) | None => None end.
@@ -464,6 +473,7 @@ Definition pure_aop (o : aop) (l : list Z) : list Z :=
   | OTake n => firstn n l
   | ORev => rev l
   | OAmend i v => list_set l i v
+  | OOther f => f l
   end.
 
 (* ---- the Spec of Part B: the same statements over a store of immutable lists ---- *)
